@@ -149,9 +149,63 @@ def check_model(spec):
                     bad = abs(got - pv) > 1e-9 * max(1.0, float(rp.cv[c][ti]), abs(pv))
                 if bad:
                     raise Violation(ID, "state-update/%s" % type(c).__name__, "%s/%s index %d->%d: recorded %r, stock+in-out gives %r" % (c.pop.name, c.name, ti, ti + 1, np.asarray(got).tolist(), np.asarray(pv).tolist()))
+    free_labels, inconclusive = free_run(spec, res, rp)
     base_units = {u.rstrip("*") for u in units}
     nontrivial = len(base_units) >= 3 and any(u.endswith("*") for u in units)
-    return {"nontrivial": nontrivial, "labels": ["kind:model"] + simcase.labels_of(spec) + ["unit:" + u for u in sorted(units)]}
+    return {"nontrivial": nontrivial, "labels": ["kind:model"] + simcase.labels_of(spec) + ["unit:" + u for u in sorted(units)] + free_labels, "inconclusive": inconclusive}
+
+
+def free_run(spec, res, rp):
+    """free run of the reference simulator from the same INPUTS; all trajectories rtol 1e-8 (relative to the population's largest stock)"""
+    from vlib import refsim, canon
+
+    try:
+        sim = refsim.RefSim(spec)
+        ref = sim.run()
+    except refsim.Unsupported as e:
+        return ["free:unsupported(%s)" % e], {}
+    got = canon.result_arrays(res)
+    t = np.asarray(res.t, dtype=float)
+    if len(sim.t) != len(t) or np.max(np.abs(sim.t - t)) > 1e-9:
+        raise Violation(ID, "free/time-grid", "reference grid %r..%r (%d points) vs atomica %r..%r (%d points)" % (sim.t[0], sim.t[-1], len(sim.t), t[0], t[-1], len(t)))
+    missing = sorted(set(got) - set(ref), key=repr)
+    extra = sorted(set(ref) - set(got), key=repr)
+    if missing or extra:
+        raise Violation(ID, "free/variables", "atomica has %r which the reference lacks; the reference has %r which atomica lacks" % (missing[:4], extra[:4]))
+    popmax = {}
+    for k, v in got.items():
+        if k[0] == "comp":
+            popmax[k[1]] = max(popmax.get(k[1], 0.0), float(np.nanmax(np.abs(v))) if v.size else 0.0)
+    first = None
+    for k in sorted(got, key=repr):
+        x, y = got[k], ref[k]
+        if x.shape != y.shape:
+            raise Violation(ID, "free/shape", "%s: atomica %r reference %r (number of elapsed-time bins or time points differs)" % (k, x.shape, y.shape))
+        S = max(1.0, popmax.get(k[1], 0.0))
+        with np.errstate(invalid="ignore"):
+            bad = np.abs(x - y) > 1e-8 * np.maximum(S, np.maximum(np.abs(x), np.abs(y)))
+            bad |= np.isnan(x) != np.isnan(y)
+            bad &= ~(x == y)
+        if bad.any():
+            i = int(np.min(np.argwhere(bad)[:, -1]))
+            if first is None or i < first[0]:
+                first = (i, k, x[..., i].tolist(), y[..., i].tolist())
+    if first is None:
+        return ["free:match"], {}
+    i, k, x, y = first
+    if i == 0:
+        raise Violation(ID, "free/initial/%s" % k[0], "at the first time point %s is %r in atomica but %r in the reference simulation run from the same inputs" % (k, x, y))
+    # mismatch after matching up to i-1: atomica's flows and state update from its own state were already confirmed by the one-step replay;
+    # confirm the parameters from atomica's own state too - if they agree, the divergence is amplified rounding (a branch flipped), not a rule
+    state = sim.state_from_result(res, i)
+    pv = sim.eval_pars(state, i)
+    for pop in res.model.pops:
+        for par in pop.pars:
+            if par.name in pv[pop.name]:
+                a, e = float(rp.pv[par][i]), float(pv[pop.name][par.name])
+                if not (a == e or (np.isnan(a) and np.isnan(e)) or abs(a - e) <= 1e-9 * max(1.0, abs(a), abs(e))):
+                    raise Violation(ID, "free/parameter", "index %d: parameter %s/%s is %r in atomica but the documented rules applied to atomica's own state give %r (first free-run divergence: %s atomica %r reference %r)" % (i, pop.name, par.name, a, e, k, x, y))
+    return ["free:diverged-inconclusive"], {"free run diverges from atomica although every one-step rule agrees (amplified rounding)": 1}
 
 
 def check(case):
